@@ -185,7 +185,7 @@ func onlyErrorReturns(b *ssa.BasicBlock, seen map[*ssa.BasicBlock]bool) bool {
 }
 
 func init() {
-	register(&Rule{Name: "ENC-GATE", Floor: 8, Run: ruleEncGate, Fixture: "fixture.gatedField",
+	register(&Rule{Name: "ENC-GATE", Floor: 4, Run: ruleEncGate, Fixture: "fixture.gatedField",
 		Doc: "in the extension constructors and marshal methods of the certificate package, a value derived from one parameter (or one field of the receiver) is put into the encoded structure under conditions on that same parameter or field only: no other parameter or field decides whether it is encoded, unless the alternative is an error"})
 }
 
